@@ -130,6 +130,9 @@ func main() {
 				{"TokenList", "FindPattern", "activeFindPattern"},
 			}},
 			{"util/util.go", []fn{{"", "BinSearchInRange", "binSearchInRange"}}},
+			{"frac/disk_blocks_writer.go", []fn{{"DiskBlocksWriter", "writeTokenTableBlocks", "writeTokenTableBlocks"}}},
+			{"frac/disk_blocks_producer.go", []fn{{"DiskBlocksProducer", "getTIDsSortedByToken", "getTIDsSortedByToken"}}},
+			{"frac/disk_blocks.go", []fn{{"DiskTokensBlock", "createTokenTableEntry", "createTokenTableEntry"}, {"DiskTokenTableBlock", "pack", "tokenTableBlockPack"}}},
 			{"parser/token_literal.go", []fn{{"", "GetHint", "getHint"}}},
 			{"parser/token_range.go", []fn{{"", "parseRangeTerm", "seqqlParseRangeTerm"}, {"", "parseSeqQLTokenRange", "seqqlParseTokenRange"}}},
 			{"parser/token_parser.go", []fn{{"tokenParser", "parseRangeTerm", "legacyParseRangeTerm"}}},
@@ -152,5 +155,5 @@ func main() {
 				e.Strs(x.def, skeleton(f, fd), fl.path+": statement skeleton of "+x.name)
 			}
 		}
-	}, "pattern/substring.go", "pattern/pattern.go", "frac/token/table.go", "frac/token/provider.go", "frac/token/table_loader.go", "frac/token/table_entry.go", "frac/active_token_list.go", "util/util.go", "parser/token_literal.go", "parser/token_range.go", "parser/token_parser.go", "frac/sealed_index.go")
+	}, "pattern/substring.go", "pattern/pattern.go", "frac/token/table.go", "frac/token/provider.go", "frac/token/table_loader.go", "frac/token/table_entry.go", "frac/active_token_list.go", "util/util.go", "frac/disk_blocks_writer.go", "frac/disk_blocks_producer.go", "frac/disk_blocks.go", "parser/token_literal.go", "parser/token_range.go", "parser/token_parser.go", "frac/sealed_index.go")
 }
